@@ -85,7 +85,7 @@ Reachable(ty) == /\ ty.r = "O" => ty.k \in {"A", "CA"}
                  /\ ty.l = "B" => ty.d = 1
 
 OpNames == {"view", "split", "shuffle", "boot", "boots", "bootf", "wl", "ova", "chunk", "siter",
-            "titer", "fiter", "map", "toowned", "single"}
+            "titer", "fiter", "map", "toowned", "single", "iterp"}
 
 \* does the Rust type offer the operation (nt = current number of target columns)
 Applicable(op, ty, nt) ==
@@ -226,6 +226,52 @@ MayRefuse(op, s, a) ==
 
 \* sample_iter: the pairs (record row, target row) in order
 SamplePairs(s, L) == [p \in 1..N(s) |-> << [j \in 1..NF(s) |-> RTag(s.rr[p], s.fc[j])], Val(s, L, p) >>]
+
+-----------------------------------------------------------------------------
+(* Iterator protocol ("iterp").  The public iterators (sample_iter, feature_iter, target_iter, sample_chunks) are    *)
+(* std iterators: whatever mixture of next / nth / by_ref().take / skip / step_by / last / count the caller uses,   *)
+(* the items are those of the plain sequence -- each item exactly once, in order.  An item is <<records, targets>>  *)
+(* (a row pair for sample_iter, the matrices of the yielded view otherwise).  A step is code * 100 + j:             *)
+(*   1 next, 2 nth(j), 3 by_ref().take(j), 4 size_hint, and the consuming 5 collect, 6 skip(j), 7 step_by(j),       *)
+(*   8 last, 9 count (the harness bounds every consuming step by tot + 3 pulls).                                    *)
+NoPol == Pol(FALSE, FALSE, FALSE)
+DsItem(s2, L) == << [p \in 1..N(s2) |-> [j \in 1..NF(s2) |-> RTag(s2.rr[p], s2.fc[j])]], [p \in 1..N(s2) |-> Val(s2, L, p)] >>
+IterItems(s, L, which, c, tot) ==
+  CASE which = 0 -> SamplePairs(s, L)
+    [] which = 1 -> [j \in 1..NF(s) |-> DsItem(OpFeatureIter(s, j, NoPol), L)]
+    [] which = 2 -> [j \in 1..NT(s) |-> DsItem(OpTargetIter(s, j, NoPol), L)]
+    [] OTHER     -> [j \in 1..tot |-> DsItem(OpChunk(s, c, j - 1, NoPol), L)]
+IterTotOk(s, which, c, tot) ==
+  CASE which = 0 -> tot = N(s)
+    [] which = 1 -> tot = NF(s)
+    [] which = 2 -> tot = NT(s)
+    [] OTHER     -> c >= 1 /\ tot \in {N(s) \div c, (N(s) + c - 1) \div c}
+MinI(a, b) == IF a < b THEN a ELSE b
+Slice(items, a, b) == [q \in 1..(IF b >= a THEN b - a + 1 ELSE 0) |-> items[a + q - 1]]
+RECURSIVE ProtoOk(_, _, _, _, _)
+ProtoOk(items, tot, steps, out, pos) ==
+  IF steps = <<>> THEN out = <<>>
+  ELSE IF out = <<>> THEN FALSE
+  ELSE LET k == Head(steps) \div 100
+           j == Head(steps) % 100
+           o == Head(out)
+           rem == tot - pos
+       IN /\ o.k = k /\ o.j = j
+          /\ CASE k = 1 -> /\ o.items = Slice(items, pos + 1, MinI(pos + 1, tot))
+                            /\ ProtoOk(items, tot, Tail(steps), Tail(out), MinI(pos + 1, tot))
+               [] k = 2 -> /\ o.items = (IF pos + j + 1 <= tot THEN <<items[pos + j + 1]>> ELSE <<>>)
+                            /\ ProtoOk(items, tot, Tail(steps), Tail(out), MinI(pos + j + 1, tot))
+               [] k = 3 -> /\ o.items = Slice(items, pos + 1, MinI(pos + j, tot))
+                            /\ ProtoOk(items, tot, Tail(steps), Tail(out), MinI(pos + j, tot))
+               [] k = 4 -> /\ o.lo <= rem /\ (o.hi = -1 \/ o.hi >= rem)
+                            /\ ProtoOk(items, tot, Tail(steps), Tail(out), pos)
+               [] k = 5 -> o.items = Slice(items, pos + 1, tot) /\ Tail(out) = <<>>
+               [] k = 6 -> o.items = Slice(items, pos + j + 1, tot) /\ Tail(out) = <<>>
+               [] k = 7 -> /\ j >= 1 /\ Tail(out) = <<>>
+                            /\ o.items = [q \in 1..(IF rem <= 0 THEN 0 ELSE (rem + j - 1) \div j) |-> items[pos + 1 + (q - 1) * j]]
+               [] k = 8 -> o.items = (IF rem > 0 THEN <<items[tot]>> ELSE <<>>) /\ Tail(out) = <<>>
+               [] k = 9 -> o.n = rem /\ Tail(out) = <<>>
+               [] OTHER -> FALSE
 
 -----------------------------------------------------------------------------
 (* initial datasets *)
